@@ -4523,7 +4523,8 @@ class ParseCtx:
         elif type_obj.data in ["str_type", "unterm_str_type"]:
             storage = OutputStorage(OutputStorageType.STR, name, default_value=default_value, str_size=self._convert_int(type_obj.children[0].value),
                     str_null=type_obj.data == "str_type")
-            if default_value is not None and len(default_value) > storage.effective_string_size():
+            # (text constants are stored UTF-8 encoded)
+            if default_value is not None and len(default_value.encode('utf-8') if isinstance(default_value, str) else default_value) > storage.effective_string_size():
                 raise IllegalParseTree("Default value is too long for output", decl.children[2])
             return storage
         elif type_obj.data == "raw_type":
@@ -5576,6 +5577,16 @@ class CodegenCtx:
                 result += chr(i)
         return result
 
+    def _string_constant_length(self, value: Union[bytes, str]):
+        """
+        Number of bytes a string constant occupies in the output (text constants are stored UTF-8 encoded, see _escape_string)
+        """
+
+        if isinstance(value, str):
+            return len(value.encode('utf-8'))
+        else:
+            return len(value)
+
     def _generate_set_string(self, value: Union[bytes, str], into: OutputStorage):
         """
         Generate code that sets value into into
@@ -5585,10 +5596,7 @@ class CodegenCtx:
         Must ensure value is short enough first.
         """
 
-        if isinstance(value, str):
-            escaped_length = len(value.encode('utf-8'))
-        else:
-            escaped_length = len(value)
+        escaped_length = self._string_constant_length(value)
 
         return f"memcpy(state->c.{into.name}, \"{self._escape_string(value)}\", {escaped_length if not into.str_null else escaped_length+1});"
 
@@ -5621,10 +5629,10 @@ class CodegenCtx:
                 # (this is also right for start actions: start() has already set the pointer to NULL or allocated the default by then, and an
                 # earlier start action may have allocated the buffer already)
                 result.add(f"if (!state->c.{action.into_storage.name}) state->c.{action.into_storage.name} = malloc({action.into_storage.str_size});")
-            if len(action.value_expr) > action.into_storage.effective_string_size():
+            if self._string_constant_length(action.value_expr) > action.into_storage.effective_string_size():
                 raise IllegalDFAStateError("Literal is too long for output", action)
             result.add(self._generate_set_string(action.value_expr, action.into_storage))
-            result.add(f"state->{action.into_storage.name}_counter = {len(action.value_expr)};")
+            result.add(f"state->{action.into_storage.name}_counter = {self._string_constant_length(action.value_expr)};")
         elif isinstance(action, DeleteBuf):
             assert action.into_storage.holds_buflike()
 
@@ -5744,7 +5752,7 @@ class CodegenCtx:
                     counter_val = 0
                     if out_expr.default_value is not None:
                         assert out_expr.holds_a(OutputStorageType.STR)
-                        counter_val = len(out_expr.default_value)
+                        counter_val = self._string_constant_length(out_expr.default_value)
                     contents.add("// initialize append counter for", out_expr.name)
                     contents.add(f"state->{out_expr.name}_counter = {counter_val};")
                     # an empty terminated string still needs its terminator
